@@ -52,7 +52,7 @@ Definition case_line (u : string * ty) : string :=
   let files := join "," (sort_strs (map (fun n => lower_str (n_name n) ++ "_ins.go") an)) in
   let xa := join "," (map (fun n => lower_str (n_name n) ++ ":" ++ hash_text (xml n)) an) in
   let xl := join "," (map (fun n => lower_str (n_name n) ++ ":" ++ hash_text (xml n)) ln) in
-  let model := "gen=ok;files=" ++ files ++ ";fmt=ok;build=ok;iface=ok;xmlast=" ++ xa ++ ";xmlpkg=" ++ xl in
+  let model := "gen=ok;files=" ++ files ++ ";fmt=ok;build=ok;iface=ok;xmlast=" ++ xa ++ ";xmlpkg=" ++ xl ++ ";det=ok;tgt=ok" in
   root ++ tab ++ unit_tags body ++ tab ++ pkg ++ ";" ++ root ++ ";" ++ hex_of_bytes (bytes_of_string src) ++ tab ++
   (if sup_root body then model else "?") ++ tab ++ model.
 
@@ -60,3 +60,44 @@ Definition cases (tier : Z) (seed : Z) : list string := map case_line (candidate
 
 (* the units the emitter streams link into their runner *)
 Definition emit_cases (tier : Z) (seed : Z) : list string := map case_line (emit_units tier).
+
+(* ---------- declaration sets with several roots, blacklist, NoClean, name collisions ---------- *)
+Definition mem_str (x : string) (l : list string) : bool := existsb (String.eqb x) l.
+
+(* parseAstFile: eligible, not yet seen (uniq), not blacklisted; in declaration order *)
+Fixpoint select (bl : list string) (seen : list string) (ns : list node) : list node :=
+  match ns with
+  | [] => []
+  | n :: r =>
+    if eligible n && negb (mem_str (n_name n) seen) && negb (mem_str (n_name n) bl)
+    then n :: select bl (n_name n :: seen) r
+    else select bl seen r
+  end.
+
+Fixpoint dedup_str (l : list string) : list string :=
+  match l with [] => [] | x :: r => if mem_str x r then dedup_str r else x :: dedup_str r end.
+
+Definition multi_line (id tags pkg : string) (ds : declset) (bl : list string) (noclean : bool) (spec_files : list string) : string :=
+  let imp := "gen/" ++ pkg in
+  let src := go_file pkg ds in
+  let ns := select bl [] (map (fun d => parse_ast_decl pkg imp (fst d) (snd d)) ds) in
+  (* files are written one after the other: a later type with the same lower-cased name overwrites *)
+  let files := sort_strs (dedup_str (map (fun n => lower_str (n_name n) ++ "_ins.go") ns) ++ (if noclean then ["stale.txt"] else [])) in
+  let opts := (match bl with [] => "" | _ => ";bl=" ++ join "," bl end) ++ (if noclean then ";nc=1" else ";nc=0") in
+  id ++ tab ++ tags ++ tab ++ pkg ++ ";" ++ id ++ ";" ++ hex_of_bytes (bytes_of_string src) ++ opts ++ tab ++
+  "gen=ok;files=" ++ join "," files ++ ";fmt=ok;build=ok;iface=ok" ++ tab ++
+  "gen=ok;files=" ++ join "," (sort_strs spec_files) ++ ";fmt=ok;build=ok;iface=ok".
+
+Definition two_roots : declset :=
+  [("A", TStruct [("X", t_int32)]); ("B", TStruct [("Y", t_string)])].
+Definition collide : declset :=
+  [("Foo", TStruct [("X", t_int32)]); ("FOO", TStruct [("Y", t_string)])].
+
+Definition extra_cases : list string :=
+  [multi_line "X0" "multi" "ux0" two_roots [] false ["a_ins.go"; "b_ins.go"];
+   multi_line "X1" "multi,blacklist" "ux1" two_roots ["B"] false ["a_ins.go"];
+   multi_line "X2" "multi,noclean" "ux2" two_roots [] true ["a_ins.go"; "b_ins.go"; "stale.txt"];
+   multi_line "X3" "multi,blacklist,noclean" "ux3" two_roots ["A"; "Zz"] true ["b_ins.go"; "stale.txt"];
+   multi_line "X4" "multi,casecollide" "ux4" collide [] false ["foo_ins.go"; "foo_ins.go(2)"]].
+
+Definition cases_all (tier : Z) (seed : Z) : list string := cases tier seed ++ extra_cases.
